@@ -698,7 +698,7 @@ def inline_pure_aliases(fn, keep=(), only=None):
 
 
 class Model:
-    def __init__(self, provider=None):
+    def __init__(self, provider=None, specialise=True):
         self.provider = provider or disk_provider()
         self.src = {}
         self.tree = {}
@@ -716,7 +716,7 @@ class Model:
                 raise AnalysisError("%s does not parse: %s" % (rel, e))
         # names, helpers and constants a maintenance commit introduced are brought back to the inventory's vocabulary (sa/canon.py)
         from .canon import canonicalise
-        self.canon_notes = canonicalise(self.tree)
+        self.canon_notes = canonicalise(self.tree, specialise=specialise)
         for mod in self.tree:
             inline_registry_aliases(self.tree[mod])
             desugar_tree(self.tree[mod])
